@@ -223,7 +223,7 @@ func (e *Env) convert(v Value, to types.Type) Value {
 				if fitsIn(s.Typ, to) {
 					return Scalar{s.T, to}
 				}
-				return Scalar{e.R().wrap(s.T, to), to}
+				return Scalar{e.wrapFit(s.T, to), to}
 			}
 			return Scalar{Int2BV(ds.W, s.T), to}
 		}
@@ -665,7 +665,7 @@ func (e *Env) arithResult(t *Term, typ types.Type, at ast.Node) Value {
 		}
 		return Scalar{t, typ}
 	}
-	return Scalar{e.R().wrap(t, typ), typ}
+	return Scalar{e.wrapFit(t, typ), typ}
 }
 
 func contigMask(c *big.Int) (lo, n int, ok bool) {
